@@ -9,6 +9,8 @@ import (
 	"strings"
 
 	"github.com/graphql-go/graphql"
+	"github.com/graphql-go/graphql/gqlerrors"
+	"github.com/graphql-go/graphql/language/printer"
 	"github.com/graphql-go/graphql/verifmo"
 )
 
@@ -294,6 +296,11 @@ func (p c06) Gen(seed uint64, enum int, tier string) json.RawMessage {
 			if r.Chance(25) {
 				op.Schema = 1
 			}
+			if r.Chance(18) {
+				// a plan prepared directly from the caller's own parsed document
+				// (PlanQuery), to be re-executed later with other variables
+				op.Kind = "prep"
+			}
 			if nv := len(c06ReqAt(&s, req).Vars); nv > 0 {
 				op.Vars = r.Intn(nv)
 			}
@@ -419,8 +426,45 @@ func (c06) Run(t TestingT, scn json.RawMessage, tape *Tape) *Outcome {
 	var lastHits, lastMisses uint64
 	var log []string
 	planOf := map[string]*graphql.Plan{}
+	// documents the caller parsed itself and prepared plans from: they must
+	// print the same after every later operation
+	type heldDoc struct {
+		doc     *graphqlDoc
+		printed string
+		name    string
+	}
+	var heldDocs []heldDoc
 	for i, op := range sc.Ops {
 		switch op.Kind {
+		case "prep":
+			rq := c06ReqAt(&sc, op.Req)
+			w := worlds[op.Schema]
+			var vars map[string]interface{}
+			if op.Vars < len(rq.Vars) {
+				vars = rq.Vars[op.Vars]
+			}
+			var res string
+			doc, err := parseDoc(rq.Query)
+			if err != nil {
+				res = MarshalResult(&graphql.Result{Errors: gqlerrors.FormatErrors(err)})
+			} else if vr := graphql.ValidateDocument(&w.Schema, doc, nil); !vr.IsValid {
+				res = MarshalResult(&graphql.Result{Errors: vr.Errors})
+			} else {
+				heldDocs = append(heldDocs, heldDoc{doc, fmt.Sprint(printer.Print(doc)), rq.Name})
+				if pl, err := graphql.PlanQuery(&w.Schema, doc, rq.Op); err != nil {
+					res = MarshalResult(&graphql.Result{Errors: gqlerrors.FormatErrors(err)})
+				} else {
+					slots[i] = got{graphql.PlanResult{Plan: pl}, w, op.Req}
+					res = MarshalResult(graphql.ExecutePlan(pl, graphql.ExecuteParams{Schema: w.Schema, Args: vars, Context: c06Ctx(w, rq.Query, rq.Faults)}))
+					o.Probe("plan-prepared-directly")
+				}
+			}
+			want := c06Scratch(w, rq, vars)
+			log = append(log, fmt.Sprintf("prep %s@%s", rq.Name, w.ID))
+			if res != want {
+				o.Violate("C06/prepared-differs@"+rq.Name, "op %d: parse + validate + PlanQuery + ExecutePlan of %q (op %q, vars %v) differs from executing it from scratch\n  plan: %s\n fresh: %s\nhistory: %s",
+					i, rq.Query, rq.Op, vars, res, want, strings.Join(log, "; "))
+			}
 		case "reset":
 			cache.Reset()
 			o.Fire("reset", 1)
@@ -490,6 +534,12 @@ func (c06) Run(t TestingT, scn json.RawMessage, tape *Tape) *Outcome {
 			} else if res != want {
 				o.Violate("C06/reexec-differs@"+rq.Name, "op %d: re-executing the plan of %q with vars %v differs from executing it from scratch\n  plan: %s\n fresh: %s\nhistory: %s",
 					i, rq.Query, vars, res, want, strings.Join(log, "; "))
+			}
+		}
+		for _, hd := range heldDocs {
+			if now := fmt.Sprint(printer.Print(hd.doc)); now != hd.printed {
+				o.Violate("C06/document-modified", "after op %d the caller's parsed document of %s, from which a plan was prepared, prints differently\n before: %s\n    now: %s\nhistory: %s", i, hd.name, hd.printed, now, strings.Join(log, "; "))
+				break
 			}
 		}
 		if cache != nil {
